@@ -283,7 +283,16 @@ def run(case):
                 MoleculeSampler.from_fragment_string('{#PEO=[$]COC[$],#OH=[$]O}', polymer_reactivities={'$': 1.0},
                                                      seed=rng.randrange(1000)).sample(100)
             elif k < 0.6:
-                cgsmiles.read_fragments(re.findall(r"\{[^\}]+\}", p['frag_string'])[-1])
+                lib_ = cgsmiles.read_fragments(re.findall(r"\{[^\}]+\}", p['frag_string'])[-1])
+                # ... and the caller edits its own copy in place
+                for g_ in lib_.values():
+                    for _, d_ in g_.nodes(data=True):
+                        for v_ in d_.values():
+                            if isinstance(v_, (list, dict)):
+                                v_.clear()
+                        d_['element'] = d_['atomname'] = 'Xx'
+                    g_.remove_edges_from(list(g_.edges))
+                lib_.clear()
         except Exception:
             pass
     for rec in contracts.take('C12'):
